@@ -81,12 +81,12 @@ Print Assumptions C35_completed_ids_ignored.
 
 (* The reaper (next_timeout, at every turn of wait_for_outgoing_message) completes with BadTimeout
    exactly the pending requests whose deadline has passed, never one whose deadline has not. *)
-Theorem C35_timeout_iff_deadline : forall dec mi mp s,
+Theorem C35_timeout_iff_deadline : forall dec mi mp s k,
   closed s = false ->
-  (exists rest, snd (step dec mi mp s Pump) = timeouts (now s) (pending s) ++ rest) /\
-  forall k, In (k, 1, 2) (timeouts (now s) (pending s)) <->
-            exists rid e, In (rid, e) (pending s) /\ e_k e = k /\ e_deadline e <= now s.
-Proof. intros dec mi mp s Hc. split; [apply pump_events; exact Hc|apply timeout_iff_deadline]. Qed.
+  (In (k, 1, 2) (snd (step dec mi mp s Pump)) <-> In (k, 1, 2) (timeouts (now s) (pending s))) /\
+  (In (k, 1, 2) (timeouts (now s) (pending s)) <->
+   exists rid e, In (rid, e) (pending s) /\ e_k e = k /\ e_deadline e <= now s).
+Proof. intros dec mi mp s k Hc. split; [apply pump_timeouts; exact Hc|apply timeout_iff_deadline]. Qed.
 Print Assumptions C35_timeout_iff_deadline.
 
 (* The executable oracle applied to the implementation's observations holds on the model for every
